@@ -13,6 +13,17 @@ Notation open_C01 I :=
 Notation explain_C01 I :=
   (explain_cell (scan_machine I) auto2 (sc_eqb I) scres_eqb all_bytes (fun x => sc_after I (path2 x)) (fun _ _ => false) 6).
 
+(* the same search over a small alphabet chosen for the cell: the prefix bytes, the bytes that lead to the
+   cell and a few ordinary codes - a decoder with hidden state (a memo keyed on the last code, a pending
+   flag) differs on continuations that reuse those bytes, and over all 256 bytes the search frontier
+   would have to be cut off long before it reaches them *)
+Definition focus2 (c : ctx2 * N) : list N :=
+  [0xE0; 0xE1; 0xF0; snd c] ++ path2 (fst c) ++ [0x1C; 0x12; 0x14; 0xAA; 0x00; 0xFA].
+Notation explain_focus_C01 I c :=
+  (explain_cell (scan_machine I) auto2 (sc_eqb I) scres_eqb (focus2 c) (fun x => sc_after I (path2 x)) (fun _ _ => false) 5 c).
+Notation explain_wide_C01 I c :=
+  (explain_cell (scan_machine I) auto2 (sc_eqb I) scres_eqb all_bytes (fun x => sc_after I (path2 x)) (fun _ _ => false) 2 c).
+
 Theorem C01_sound (I : ScanImpl) (s0 : sc_st I) :
   sc_init I = Ret s0 ->
   closed_C01 I = true ->
